@@ -250,6 +250,11 @@ EncOrd(T, v) ==
 
 EncValue(T, v) == EncOrd(S("m"), <<T, v>>)   \* signature-prefixed dynamic value
 
+(* The decoders' documented caps (C07's mechanism) bound what a legal datum may announce; a datum exactly *)
+(* AT a cap is a legal value and must round-trip like any other.                                          *)
+ListValueCap == 4096
+ListOfVoidValues(n) == EncValue(List(S("m")), [i \in 1..n |-> <<S("v"), <<>>>>])
+
 RECURSIVE SeqProd(_)                      \* {s : s[i] \in f[i]}
 SeqProd(f) == IF f = <<>> THEN {<<>>}
               ELSE LET R == SeqProd(Tail(f)) IN UNION {{<<x>> \o r : r \in R} : x \in Head(f)}
@@ -378,7 +383,7 @@ Fields(T, v, off) ==     \* off: 0-based offset of the encoding of v
 LengthFieldPositions(T, v) == Fields(T, v, 0)
 
 Patch(b, pos, q) == [i \in 1..Len(b) |-> IF i > pos /\ i <= pos + 4 THEN q[i - pos] ELSE b[i]]
-HostileNames == {"ff", "hi", "max31", "plus1", "rem1", "cap1", "strcap1", "big16"}
+HostileNames == {"ff", "hi", "max31", "plus1", "rem1", "cap1", "strcap1", "big16", "strcap", "mid"}
 Hostile(name, n, rem) ==      \* n: the honest value, rem: bytes that follow the field
   CASE name = "ff"      -> <<255, 255, 255, 255>>      \* 0xFFFFFFFF / -1
     [] name = "hi"      -> <<0, 0, 0, 128>>            \* 0x80000000 / min int32
@@ -388,6 +393,9 @@ Hostile(name, n, rem) ==      \* n: the honest value, rem: bytes that follow the
     [] name = "cap1"    -> LE(4097, 4)                 \* list / map caps + 1
     [] name = "strcap1" -> <<1, 0, 160, 0>>            \* 10 MiB + 1
     [] name = "big16"   -> <<0, 0, 1, 0>>              \* 65536
+    [] name = "strcap"  -> <<0, 0, 160, 0>>            \* 10 MiB exactly: a legal string / raw length, as a COUNT it
+                                                       \* announces gigabytes
+    [] name = "mid"     -> <<64, 75, 76, 0>>           \* 5 000 000: below every byte cap, far above every count cap
 Mutants(T, v) ==
   LET b == EncOrd(T, v) IN
   {[pos |-> f.pos, kind |-> f.kind, esz |-> f.esz, h |-> h, bytes |-> Patch(b, f.pos, Hostile(h, f.n, Len(b) - f.pos - 4))]
